@@ -17,7 +17,7 @@ from .realpool import Pool, pid_alive
 from .runner import SubjectFailure
 
 ROGUE = ["hangup-pending", "hangup-pending", "garbage", "half-line", "flood-noread", "cancel-unknown", "wrong-shape",
-         "hangup-mid-reply"]
+         "hangup-mid-reply", "many-sessions"]
 
 
 @st.composite
@@ -51,7 +51,7 @@ def run(case):
             {"name": "side", "inputs": [], "outputs": ["side.out"], "spec": spec("side", 0.05), "wd": None},
         ]
         proj.write_desc({"targets": targets, "files": {}})
-        pool = Pool(proj.dir, 2, cwd=proj.pool_cwd())
+        pool = Pool(proj.dir, 2, cwd=proj.pool_cwd(), nofile=256)
         held = []  # sockets kept open until the end
         try:
             proj.write_config({"backend": "local", "backend.local.port": pool.port, "backend.local.host": "127.0.0.1"})
@@ -81,7 +81,22 @@ def run(case):
                     v("pool-not-accepting-connections", f"after {done[:-1]}: {exc}")
                     break
                 try:
-                    if act == "hangup-pending":
+                    if act == "many-sessions":
+                        # nothing misbehaves here: several hundred well-behaved sessions in a row (status polled in a
+                        # loop) against a pool with the usual limit on open files
+                        s.close()
+                        for n_ in range(300 + 4 * k):
+                            c = socket.create_connection(("127.0.0.1", pool.port), timeout=10)
+                            c.sendall(_line("get_task_states"))
+                            f = c.makefile("rb")
+                            if not f.readline():
+                                v("healthy-client-not-served", f"well-behaved session number {n_ + 1} in a row got no answer", after=act)
+                                c.close()
+                                break
+                            c.sendall(_line("close"))
+                            f.close()
+                            c.close()
+                    elif act == "hangup-pending":
                         # k requests in one write, then gone without reading a single reply
                         s.sendall(_line("get_task_states") * k)
                         s.close()
